@@ -10,6 +10,7 @@ THEOREMS = [P + n for n in [
     "link_bytes_preserved",
     "link_bytes_are_relocated", "jal_bound_to_final", "r_mips_26", "unresolved_is_error",
     "program_reference_unresolved_is_error", "unsupported_object_is_error", "verify_accepts_only_elf32_le",
+    "found_function_is_text_symbol", "call_name_is_relocation_symbol",
     "link_terminates", "readers_never_read_outside", "j_relocation_ignored_counterexample",
     "section_symbol_call_counterexample"]]
 RULE = ("link cases = generated ELF32 relocatable objects / ar archives (1..4 objects, 1..8 functions, call graphs: "
